@@ -8,7 +8,7 @@ namespace XmppModel.Negotiate
 /-- number of features lists the initiator has finished reading -/
 def nLists : List Ev → Nat
   | [] => 0
-  | .listIn _ _ _ :: rest => nLists rest + 1
+  | .listIn _ _ _ _ :: rest => nLists rest + 1
   | _ :: rest => nLists rest
 
 /-- (trace newest first) every forced `Negotiate` is for a STARTTLS-namespace feature, on the
